@@ -679,6 +679,29 @@ pub fn generate(rng: &mut Rng, n: usize, tier: &str) -> Vec<Value> {
     ] {
         v.push(json!({ "e": e }));
     }
+    // large automata (hundreds of NFA states, like the decoder's key table and parameter lists)
+    {
+        let keys: Vec<Value> = (0..48u32)
+            .map(|i| tag(i, lit(format!("\x1b[{};{}~", i * 7 % 40, i).as_bytes())))
+            .collect();
+        v.push(json!({"e": nary("choice", keys), "sigma": [27, 91, 49, 59, 126], "len": 3,
+                      "probes": [b"\x1b[7;1~".to_vec(), b"\x1b[14;2~".to_vec(), b"\x1b[14;2".to_vec(), b"\x1b[9;47~".to_vec()]}));
+        let opts: Vec<Value> = (0..40u32)
+            .map(|i| {
+                let c = [b'a' + (i % 3) as u8];
+                if i % 2 == 0 { un("opt", lit(&c)) } else { un("many", lit(&c)) }
+            })
+            .collect();
+        v.push(json!({"e": nary("seq", opts), "sigma": [97, 98, 99], "len": 3}));
+        let params = nary("seq", vec![
+            lit(b"\x1b["),
+            un("plus", nary("seq", vec![un("many", pred(b"0123456789:")), un("opt", lit(b";"))])),
+            un("many", nary("choice", (0..30u8).map(|i| lit(&[b'A' + i % 26, b'a' + i % 7])).collect())),
+            lit(b"m"),
+        ]);
+        v.push(json!({"e": params, "sigma": [27, 91, 48, 59, 109], "len": 4,
+                      "probes": [b"\x1b[0;38:5:1;mAaBbm".to_vec(), b"\x1b[m".to_vec(), b"\x1b[;;m".to_vec(), b"\x1b[1Aam".to_vec()]}));
+    }
     let fixed = v.len();
     let als: [&[u8]; 4] = [b"ab", b"abc", b"a", b"ab;0"];
     while v.len() < fixed + n {
